@@ -16,9 +16,9 @@ def configs(tier):
                    "CPs = {65, 233, 8364, 128512, 1048576, 1114111, 2097151, 2097152, 67108863, 67108864, 2147483647}", "Fmts = {1, 2}", "PopCounts = {0, 1, 2, 1000000}", "CmpSet <- CmpShort"]),
         ("utf", ["Bytes = {97}", "Blocks <- BlocksLong", "Lmax = 8", "TrimSets <- TrimSetsDef",
                  "CPs = {65, 233, 8364, 128512, 1048576, 1114111, 2097151, 2097152, 67108863, 67108864, 2147483647}", "Fmts = {1}", "PopCounts = {1}", "CmpSet <- BlocksLong"]),
-        ("mid", ["Bytes = {97, 32}", "Blocks <- BlocksMid", "Lmax = %d" % (9 if q else 11), "TrimSets <- TrimSetsDef",
+        ("mid", ["Bytes = {97, 32}", "Blocks <- BlocksMid", "Lmax = %d" % (9 if q else 10), "TrimSets <- TrimSetsDef",
                  "CPs = {97}", "Fmts = {1, 6, 8}", "PopCounts = {0, 1, 9, 1000000}", "CmpSet <- BlocksMid"]),
-        ("long", ["Bytes = {97}", "Blocks <- BlocksLong", "Lmax = %d" % (17 if q else 25), "TrimSets <- TrimSetsDef",
+        ("long", ["Bytes = {97}", "Blocks <- BlocksLong", "Lmax = %d" % (17 if q else 23), "TrimSets <- TrimSetsDef",
                   "CPs = {97}", "Fmts = {1, 2, 3, 4, 5, 6, 7, 8}" if not q else "Fmts = {1, 6, 7, 8}", "PopCounts = {0, 1, 9, 1000000}", "CmpSet <- BlocksLong"]),
     ]
 
@@ -45,7 +45,7 @@ def run(pid, tier, replay=None):
         res = tlc(os.path.join(SPECDIR, "StrMC.tla"), cfg, sc, timeout=2400, heap="12g", capture_prefix="3333333", stdout_path=out)
         tlc_must_pass(res, "StrMC " + name)
         ck.add_tlc(res, "model_" + name)
-        summ, crashes = replay_with_resume(ck, exe, out, sc.path("g-" + name), 14, keyfn)
+        summ, crashes = replay_with_resume(ck, exe, out, sc.path("g-" + name), 14 if tier == "quick" else 60, keyfn)
         if summ is None or crashes or summ["mismatch"] or summ["drift"]:
             exhaustive = False
         if summ:
